@@ -23,6 +23,7 @@ def job(sub, runtime, budget, with_sup):
         lp.record(sub, '%s.iteration.path%d' % (tag, k), r['state'], claims, 'C01.iteration',
                   sample={'layer': 'L1 process_message', 'class': r['klass'], 'callbacks': [e[1:3] for e in r['cbs']]},
                   on_cex=lambda m, r=r: replay(tag, iteration_as_lifecycle(r)))
+        lp.kill_preemption(sub, '%s.iteration.path%d' % (tag, k), r['state'], 'C01.iteration', on_cex=lambda m, r=r: replay_preempt(tag, iteration_as_lifecycle(r)))
     for k, r in enumerate(res):
         complete = r['kind'] == 'ready'
         if r['kind'] in ('unwind', 'abort'):
@@ -32,6 +33,8 @@ def job(sub, runtime, budget, with_sup):
         lp.record(sub, '%s.life.path%d' % (tag, k), r['state'], claims, 'C01.lifecycle',
                   sample={'layer': 'L2 start+task', 'phase': r['phase'], 'trace': [list(x) for x in summ if x[0] in ('CB', 'SUPEVT', 'TASKEND')][:14]},
                   on_cex=lambda m, r=r: replay(tag, r['state'].trace))
+        if lp.kill_preemption(sub, '%s.life.path%d' % (tag, k), r['state'], 'C01.lifecycle', on_cex=lambda m, r=r: replay_preempt(tag, r['state'].trace)):
+            seen.add('callback_in_a_later_poll')
         exits = [e[1] for e in r['state'].trace if e[0] == 'LOOPEXIT']
         ends = [(e[2], e[4]) for e in r['state'].trace if e[0] == 'CB' and e[1] == 'end']
         if exits == ['stop'] and ('post_stop', 'ok') in ends:
@@ -61,6 +64,11 @@ def iteration_as_lifecycle(r):
 def replay(tag, trace):
     import life_replay
     return life_replay.replay_trace(tag, trace, 'C01')
+
+
+def replay_preempt(tag, trace):
+    import life_replay
+    return life_replay.replay_kill_preemption()
 
 
 def run(ctx):
